@@ -36,3 +36,28 @@ func TestScalar64(t *testing.T) {
 		t.Errorf("exit code %d", code)
 	}
 }
+
+// TestStageB is a development aid like TestScalar64.
+func TestStageB(t *testing.T) {
+	if os.Getenv("VOI_ERANGE_DEV") == "" {
+		t.Skip("development aid; set VOI_ERANGE_DEV=1")
+	}
+	if os.Getenv("VOI_VERIF") == "" {
+		os.Setenv("VOI_VERIF", t.TempDir())
+	}
+	cfg := os.Getenv("VOI_CFG")
+	if cfg == "" {
+		cfg = "purego"
+	}
+	p, err := load.Load(cfg, load.Opts{SSA: true})
+	if err != nil {
+		t.Fatal(err)
+	}
+	run := report.New("C04", "thorough", 0)
+	CheckFieldStageB(run, p, "RANGE-B")
+	b, _ := json.MarshalIndent(run.Extra, "", " ")
+	fmt.Println(string(b))
+	if code := run.Finish(); code != 0 {
+		t.Errorf("exit code %d", code)
+	}
+}
